@@ -149,6 +149,17 @@ def outputOK (c : Class) (env : Env) (nIn : Nat) (outs : List Fixed64) : Bool :=
       if env.multiExchange then 1 ≤ outs.length && allPos outs
       else outs.length ≤ 2 && 1 ≤ outs.length && allPos outs
 
+/-- Does CheckTransactionOutput of the class refuse an output whose AssetID is not the ELA asset?
+    Every copy of the default loop does; ActivateProducer after NFTStartHeight checks nothing and the
+    new-form SideChainPow only looks at count, value (0) and type.  (The fee helpers add up values
+    regardless of the asset id, so a foreign-asset output is still counted by the fee check.) -/
+def requiresELA (c : Class) (env : Env) (nIn : Nat) : Bool :=
+  match c with
+  | .activate => !env.afterNFT
+  | .sidePow => nIn != 0
+  | .coinbase => false
+  | _ => true
+
 /-- `checkTransactionOutputsTotal` (the fix): every value ≥ 0 and the running
     total never wraps.  Same loop as the Go function. -/
 def totalFrom (acc : Fixed64) : List Fixed64 → Bool
